@@ -727,7 +727,7 @@ def run_cases(cases, ctx):
                 violations.append({'case': c, 'summary': describe(c, o), 'signature': signature_of(code, c, o, k),
                                    'what': what_of(code, c, o, k), '_k': k,
                                    'observed': ['verdict %d: %s' % (code, ', '.join(clause_names(code)))]})
-    # ---- informative: the writer's _indent against the reference depth at every token that follows a run
+    # ---- the writer's _indent against the reference depth at every token that follows a run
     if ctx.get('monitor_exe'):
         reqs, owners = [], []
         for c, o in zip(cases, obs):
@@ -746,7 +746,13 @@ def run_cases(cases, ctx):
             src = bytes.fromhex(c['srcs'][0])
             in_short = {p[0] for p in o['link'] if p[2]}
             for off in bad:
-                bump('link:mismatch:' + ('inside-a-short-if' if off in in_short else _classify_link_mismatch(src, off)))
+                why = 'inside-a-short-if' if off in in_short else _classify_link_mismatch(src, off)
+                bump('link:mismatch:' + why)
+                if why.startswith('UNEXPLAINED') and not any(d.get('summary', {}).get('kind') == 'link' for d in disagreements):
+                    # the writer's depth bookkeeping deviates from the syntactic depth at a token, outside the two known
+                    # unobservable places: treated like a correspondence break (the search then looks for a layout that shows it)
+                    disagreements.append({'case': c, 'summary': {'kind': 'link', 'src': src.decode('latin-1')[:300]},
+                                          'difference': 'writer _indent differs from the reference depth at byte offset %d (%s)' % (off, why)})
     # minimise the smallest witness of each signature (at most 4 signatures, 12 s each)
     if violations and ctx.get('monitor_exe') and ctx.get('tier') != 'replay':
         best = {}
